@@ -39,6 +39,13 @@ func runC01(e *Env) {
 	// numbers) for every layout and year width (the construction half of C09's decision tree)
 	e.As(map[string]string{"C09.valid": "C01.parse", "C09.comp": "C01.parse"}, func() { ruleC09Sem(e) })
 	e.S.Floor("C01.parse", 13)
+	// … of the text itself: the pattern is applied to the whole input (a text cut to the ten characters of the
+	// four-digit layout no longer holds a five-digit year) and a failed match is an error
+	ruleNoMatchRejects(e, "C01.subject", e.Fn("C01.subject", "date", "DefaultParser"))
+	e.S.Floor("C01.subject", 2)
+	// "through any input path": an exported function or method of the package that takes a text and is not one of the
+	// paths read here hands that text, whole and unchanged, to one of them — or what it accepts is not known
+	ruleLateEntriesDelegate(e, "C01.paths", "date")
 	// C01.fmt takes Bprintf as "append the formatted text to buf": that summary is an obligation of its own —
 	// the bytes handed back are the caller's buffer extended, not storage shared with later calls
 	if fs := funcs(e.Fn("C01.buffer", "date", "DefaultFormatter"), e.Fn("C01.buffer", "internal", "Bprintf")); len(fs) == 2 {
@@ -117,7 +124,9 @@ func ruleC01Fmt(e *Env) {
 		name string
 		flag int64
 		sep  string
-	}{{"extended", 0, "-"}, {"basic", basic, ""}} {
+	}{{"extended", 0, "-"}, {"basic", basic, ""},
+		// every other flag bit set: no undocumented flag selects another layout
+		{"extended (other flag bits set)", ^basic, "-"}, {"basic (other flag bits set)", -1, ""}} {
 		captured, ret, err := e.formatCall(fn, []pred.Val{pred.Sym{Name: "buf"}, a.recv("d"), pred.Const{V: constant.MakeInt64(c.flag)}})
 		if err != nil {
 			e.S.Unk(rule, site, c.name, "not evaluable: "+err.Error(), e.Pos(fn))
@@ -278,6 +287,15 @@ func ruleC01Lang(e *Env) {
 	site := "date.DefaultParser"
 	e.langSubset(rule, site, "canonical extended texts accepted", dl.sp, dl.extra[0], dl.acc0, "D{4,9}-MM-DD (MM 01..12, DD 01..31)", "accepted layouts")
 	e.langSubset(rule, site, "canonical basic texts accepted", dl.sp, dl.extra[1], dl.acc0, "D{4,9}MMDD (MM 01..12, DD 01..31)", "accepted layouts")
+	// … and the same with the limit raised instead of disabled (set, the text within it)
+	dateLimitOn = true
+	dl2 := dateLayoutLanguages(e, rule,
+		`^[0-9]{4,9}-`+mm+`-`+dd+`$`, `^[0-9]{4,9}`+mm+dd+`$`)
+	dateLimitOn = false
+	if dl2 != nil {
+		e.langSubset(rule, site, "canonical extended texts accepted (limit raised)", dl2.sp, dl2.extra[0], dl2.acc0, "D{4,9}-MM-DD (MM 01..12, DD 01..31)", "accepted layouts")
+		e.langSubset(rule, site, "canonical basic texts accepted (limit raised)", dl2.sp, dl2.extra[1], dl2.acc0, "D{4,9}MMDD (MM 01..12, DD 01..31)", "accepted layouts")
+	}
 	// capture widths
 	pat, ok := e.pattern(rule, "date", "pattern")
 	if !ok {
